@@ -1091,13 +1091,15 @@ impl HandlerRunner {
         match t {
             // application of node X sends a request to node Y
             ["hreq", x, y, how, rid, body] => {
-                let (Some(xi), Some(yi)) = (self.node_pos(x), self.node_pos(y)) else {
+                // Y = 8: the identity that only has an Ed25519 key (nobody listens at its address)
+                let to_ed = *y == "8" && self.ed_enr.is_some();
+                let (Some(xi), Some(yi)) = (self.node_pos(x), if to_ed { Some(usize::MAX) } else { self.node_pos(y) }) else {
                     return self.finish(None, None, 0, out, stats);
                 };
                 let rid: u64 = rid.parse().unwrap_or(1);
                 let body: u64 = body.parse().unwrap_or(1);
-                let yenr = self.nodes[yi].enr.clone();
-                let yaddr = self.nodes[yi].addr;
+                let yenr = if to_ed { self.ed_enr.clone().unwrap() } else { self.nodes[yi].enr.clone() };
+                let yaddr = if to_ed { node_addr(ED_IDENTITY) } else { self.nodes[yi].addr };
                 let contact = if *how == "enr" {
                     NodeContact::new(yenr.public_key(), yaddr, Some(yenr.clone()))
                 } else {
@@ -1106,13 +1108,14 @@ impl HandlerRunner {
                 let req = Request { id: rid_bytes(rid), body: body_of(body) };
                 // ledger: what node X's application seals is legitimately "sent by X"
                 let xidx = self.nodes[xi].idx;
-                let yidx = self.nodes[yi].idx;
+                let yidx = if to_ed { ED_IDENTITY } else { self.nodes[yi].idx };
+                if to_ed { stats.bump("h.op.req-to-ed25519-identity"); }
                 self.ledger.reqs.insert((xidx, rid), ReqLedger { sent_at: self.now_ms, to: yidx, ..Default::default() });
                 let _ = self.nodes[xi].to_handler.send(HandlerIn::Request(contact, Box::new(req)));
                 let na = format!("{}@{}", yidx, self.addr_idx(yaddr));
                 let rec = if *how == "enr" { self.rec(&yenr) } else { "none".into() };
                 stats.bump("h.op.req");
-                self.finish(Some(xi), Some(format!("appreq {} {} {} {}", na, rec, rid, body)), 1, out, stats);
+                self.finish(Some(xi), Some(format!("appreq {} {} {} {}{}", na, rec, rid, body, if to_ed { " nokey" } else { "" })), 1, out, stats);
             }
             // application of node X answers its Q-th who-are-you query
             ["hwru", x, q, what] => {
@@ -1697,7 +1700,20 @@ pub fn gen_case(rng: &mut Rng, tier: &str, profile: &str, stats: &mut Stats) -> 
                 if adversarial && rng.chance(1, 25) { ops.push("hdel next 20".into()); } else { ops.push("hdel next".into()); }
                 emitted += 1;
             }
-            56..=58 => ops.push("hdel skip".into()),
+            56..=58 => {
+                if adversarial && rng.chance(1, 6) {
+                    // a request to an identity whose key cannot do the key agreement; somebody at that
+                    // address answers with a WHOAREYOU: no session can be made, the request fails
+                    let x = rng.range(1, n);
+                    ops.push(format!("hreq {} 8 {} {} {}", x, if rng.chance(1, 2) { "enr" } else { "raw" }, rid, rng.range(1, 4)));
+                    rid += 1;
+                    ops.push(format!("hcraft whoareyou {} r {}", x, rng.below(3)));
+                    ops.push("hdel last".into());
+                    emitted += 2;
+                } else {
+                    ops.push("hdel skip".into());
+                }
+            }
             59..=62 => {
                 // duplicate / reordered delivery of an earlier datagram, sometimes from a foreign address
                 if emitted > 0 {
